@@ -235,7 +235,7 @@ class TrainSim(Sim):
             st.n_calls += 1
             fault = None
             if kn["faulty"]:
-                fault = rng.choice([{"where": "forward", "kind": rng.choice(["alloc", "interrupt"]), "at": rng.randint(1, 30)}, {"where": "criterion"},
+                fault = rng.choice([{"where": "forward", "kind": rng.choice(["alloc", "interrupt", "exit"]), "at": rng.randint(1, 30)}, {"where": "criterion"},
                                     {"where": "callback"}, {"where": "transform"}])
             return {"k": "fit", "epochs": rng.choice([0, 1, 1, 2, 3]), "fault": fault}
         if st.n_calls < (3 if kn["faulty"] else rng.choice([1, 2, 3])):
